@@ -36,7 +36,7 @@ func init() {
 	}
 	Props["C05"] = &PropSpec{
 		Level: "other",
-		Rules: []string{"R11", "R12", "R13", "R14", "R10"},
+		Rules: []string{"R11", "R12", "R13", "R14", "R10", "R06"},
 		Explanation: "Policy clauses, for all polygons and the four flag combinations: a present tile matrix always has at least one polygon (R11); rings below three vertices are diverted before de-duplication and before splitting, emitted only under keep-points-and-lines, after the polygons, and a level is dropped only when the shell collapses; the closing vertex is removed before the size test (R12); winding normalisation precedes routing (R06 under C01) and the configured reversal is the last transformation and covers every ring (R13); each option is read exactly where it takes effect (R14); the repeated-vertex lookup does not go through a lossy int->float->int conversion (R10, the F4 defect class).",
 		Decided: []string{"absent-rather-than-empty (R11)", "ring-size guards and keep/drop policy (R12)", "reversal last and complete (R13)", "option reads (R14)", "no lossy round trip on the snapping path (R10)"},
 		NotDecided: []string{"that splitting yields simple rings with the right orientation for every input (depends on hit maps and float area signs)", "no two equal consecutive vertices"},
@@ -51,7 +51,7 @@ func init() {
 	}
 	Props["C08"] = &PropSpec{
 		Level: "other",
-		Rules: []string{"R20", "R18", "R19", "R09"},
+		Rules: []string{"R20", "R18", "R18b", "R19", "R09"},
 		Explanation: "For all polygons and id subsets: result keys are exactly requested ids (R20); every access to level-indexed state (maps keyed by Level in snap and pointindex, 40+ sites) uses the level currently being processed, the root level, or the counter of the descent over all levels (R18, with one hop through parameters); the requested set only selects what is recorded and never steers the descent, and a level is dropped only because of its own ring result (R19); the level arithmetic is shared (R09).",
 		Decided: []string{"result keyed by requested ids only (R20)", "no cross-level access to per-level state (R18)", "requested set does not influence the descent (R19)"},
 		NotDecided: []string{"that coarser pixel addresses derived from the deepest address are independent of the deepest level — true exactly when the extent divides evenly, the property's own precondition (arithmetic)"},
